@@ -23,6 +23,7 @@ var _ Textual = new(columnEnum)
 type columnEnum struct {
 	chunks[uint32]
 	seek *intmap.Sync // The hash->location table
+	lock sync.RWMutex // The lock for the string data, shared by all chunks
 	data []string     // The string data
 }
 
@@ -56,23 +57,32 @@ func (c *columnEnum) Apply(chunk commit.Chunk, r *commit.Reader) {
 func (c *columnEnum) findOrAdd(v []byte) uint32 {
 	target := uint32(xxh3.Hash(v))
 	at, _ := c.seek.LoadOrStore(target, func() uint32 {
-		c.data = append(c.data, string(v))
-		return uint32(len(c.data)) - 1
+		return c.append(string(v))
 	})
 
 	// On a hash collision, probe the next slots until we find our string or a free slot
 	for c.readAt(at) != string(v) {
 		target++
 		at, _ = c.seek.LoadOrStore(target, func() uint32 {
-			c.data = append(c.data, string(v))
-			return uint32(len(c.data)) - 1
+			return c.append(string(v))
 		})
 	}
 	return at
 }
 
+// append adds a string to the table and returns its location. Commits of different chunks
+// intern strings in parallel and readers of any chunk index the table, hence the lock.
+func (c *columnEnum) append(v string) uint32 {
+	c.lock.Lock()
+	defer c.lock.Unlock()
+	c.data = append(c.data, v)
+	return uint32(len(c.data)) - 1
+}
+
 // readAt reads a string at a location
 func (c *columnEnum) readAt(at uint32) string {
+	c.lock.RLock()
+	defer c.lock.RUnlock()
 	return c.data[at]
 }
 
